@@ -594,7 +594,67 @@ def rule_setters_write(ctx):
         ctx.check(ok, fq, f"writes {want[1]}{'.' + want[2] if want[2] else ''} ({want[0]}) unconditionally", f"{len(hits)} statement(s) with that effect, none unconditional: every caller believes the value is stored", "one unconditional statement", where=ctx.where_of(fi))
 
 
+def rule_transitions_applied(ctx):
+    """R-C09-11: update_file_hashes applies what the transition table says, for every record.
+
+    R-C09-6 decides that the table covers every (cause, state, known) a producer can deliver.  This rule decides the
+    interpreter: the table is consulted with that triple, a missing row raises, the new state and hash are written for
+    every record, and each action is dispatched to its handler.
+    """
+    uf = ctx.prog.func("workflow.Workflow.update_file_hashes")
+    src = re.sub(r"\s+", " ", ast.unparse(uf.node))
+    ctx.check("_HASH_TRANSITIONS.get((cause, old_state, not new_fh.is_unknown))" in src, uf.fq, "the table is consulted with (cause, old state, hash known)", "lookup key changed", "(cause, old_state, not new_fh.is_unknown)")
+    # a missing row raises
+    miss = [n for n in ast.walk(uf.node) if isinstance(n, ast.If) and re.sub(r"\s+", " ", ast.unparse(n.test)) == "transition is None"]
+    ok = bool(miss) and any(isinstance(x, ast.Raise) or (isinstance(x, ast.Call) and callee_name(x) == "raise_unexpected") for n in miss for st_ in n.body for x in ast.walk(st_))
+    inner = [f for f in ast.walk(uf.node) if isinstance(f, ast.FunctionDef) and f.name == "raise_unexpected"]
+    ok = ok and bool(inner) and any(isinstance(x, ast.Raise) and "ConsistencyError" in ast.unparse(x) for x in ast.walk(inner[0]))
+    ctx.check(ok, uf.fq, "a triple without a row raises ConsistencyError", "an unlisted transition is silently skipped: the file keeps a state that contradicts what was just observed", "raise")
+    filled, consumed, detail = shared.wiring(uf, "new_states_hashes", "executemany")
+    upd = [s_ for s_ in ctx.sql.stmts_in(uf.fq) if s_.kind == "UPDATE" and ("UPDATE", "file", "state", None) in s_.writes and ("UPDATE", "file", "hash", None) in s_.writes]
+    ctx.check(filled and consumed and len(upd) == 1, uf.fq, "the new state and hash of every record are written", f"{detail}; UPDATE file SET state, hash statements: {len(upd)}", "new_states_hashes -> UPDATE file SET state = ?, hash = ?")
+    # the append is unconditional inside the record loop (every record with a row gets its new state)
+    parents = {}
+    for n in ast.walk(uf.node):
+        for c in ast.iter_child_nodes(n):
+            parents[c] = n
+    cond = False
+    for n in ast.walk(uf.node):
+        if isinstance(n, ast.Call) and isinstance(n.func, ast.Attribute) and n.func.attr == "append" and ast.unparse(n.func.value) == "new_states_hashes":
+            node = n
+            while node in parents and not isinstance(parents[node], (ast.For, ast.AsyncFor)):
+                node = parents[node]
+                if isinstance(node, (ast.If, ast.Try, ast.IfExp)):
+                    cond = True
+    ctx.check(not cond, uf.fq, "no record is left out of the write", "the append is conditional", "unconditional append")
+    handlers = {"updated": "handle_updated_file", "deleted": "handle_deleted_file", "completed": "mark_consuming_steps_pending"}
+    for action, handler in handlers.items():
+        loops = [l for l in ast.walk(uf.node) if isinstance(l, ast.For) and re.sub(r"\s+", "", ast.unparse(l.iter)) in (f"action_lists['{action}']", f'action_lists["{action}"]') and any(callee_name(c) == handler for c in calls_in(l))]
+        ctx.check(len(loops) == 1, uf.fq, f"action '{action}' is dispatched to {handler}", f"{len(loops)} loop(s) over action_lists['{action}'] calling {handler}: the state is written but the steps that consume the file are not told", "one loop", where=ctx.where_of(uf))
+    ctx.check("action_lists[action].append((i, path))" in src, uf.fq, "actions are collected per record", "actions are not collected", "action_lists[action].append")
+
+
+def rule_declaration_wired(ctx):
+    """R-C09-12: what a step declares (or amends) is written into the graph: edges to its outputs, its environment
+    variables, and the mark that tells a run-time edge from a declared one."""
+    ds = ctx.prog.func("workflow.Workflow.define_step")
+    ctx.check(any(callee_name(c) == "add_env_deps" and c.args and ast.unparse(c.args[0]) == "env_deps" for c in calls_in(ds.node)), ds.fq, "declared environment variables are stored", "env_deps of a new step are dropped: the step is not rerun when they change", "step.add_env_deps(env_deps)")
+    for coll, state in (("out_paths", "FileState.PLANNED"), ("vol_paths", "FileState.VOLATILE")):
+        loops = [l for l in ast.walk(ds.node) if isinstance(l, ast.For) and ast.unparse(l.iter) == coll]
+        ok = any(any(callee_name(c) == "_declare_file" and len(c.args) >= 3 and ast.unparse(c.args[2]) == state for c in calls_in(l)) and any(callee_name(c) == "add_source" and c.args and ast.unparse(c.args[0]) == "step" for c in calls_in(l)) for l in loops)
+        ctx.check(ok, ds.fq, f"every path of {coll} is declared ({state.split('.')[-1]}) and linked to the step", f"a declared output has no edge from its step (or is not declared): a SUCCEEDED step is not checked for that output, cleanup and the need computation do not see it", "_declare_file + file.add_source(step)", where=ctx.where_of(ds))
+    am = ctx.prog.func("workflow.Workflow.amend_step")
+    ctx.check(any(callee_name(c) == "amend_env_deps" and c.args and ast.unparse(c.args[0]) == "env_deps" for c in calls_in(am.node)), am.fq, "amended environment variables are stored as dynamic", "amended env_deps are dropped", "step.amend_env_deps(env_deps)")
+    filled, consumed, detail = shared.wiring(am, "dynamic_ideps", "executemany")
+    ins = [s_ for s_ in ctx.sql.stmts_in(am.fq) if s_.kind == "INSERT" and any(w[0] == "INSERT" and w[1] == "dynamic_dep" for w in s_.writes)]
+    ctx.check(filled and consumed and len(ins) == 1, am.fq, "every edge added by an amend is marked dynamic", f"{detail}; INSERT INTO dynamic_dep: {len(ins)}: an amended edge that is not marked survives the next rerun as if it were declared", "dynamic_ideps -> INSERT INTO dynamic_dep")
+    n_app = sum(1 for c in calls_in(am.node) if isinstance(c.func, ast.Attribute) and c.func.attr == "append" and ast.unparse(c.func.value) == "dynamic_ideps")
+    ctx.check(n_app >= 3, am.fq, "inputs, outputs and volatile outputs of an amend all contribute their edge ids", f"{n_app} append site(s) (3 confirmed by hand: inputs, outputs, volatile outputs)", f"{n_app} sites")
+
+
 RULES = [
+    Rule("R-C09-12", "declarations and amendments are written into the graph", rule_declaration_wired, min_instances=6),
+    Rule("R-C09-11", "update_file_hashes applies the transition table", rule_transitions_applied, min_instances=8),
     Rule("R-C09-10", "the cached readiness follows every change of an input's attachment or state (a stale _ready lets _derive_job meet a state it rejects as internal error)", C10.rule_flag_coverage, min_instances=62),
     Rule("R-C09-9", "primitive setters perform their write", rule_setters_write, min_instances=11),
     Rule("R-C09-1", "row invariants guarded by CHECK / RAISE triggers", rule_guards, min_instances=17),
@@ -613,6 +673,13 @@ def _drop_trigger(name, file):
 
 
 MUTANTS = [
+    Mutant("output-declared-without-edge", "workflow.py", in_function("Workflow.define_step", replace_once("            file = self._declare_file(step, out_path, FileState.PLANNED)\n            file.add_source(step)\n", "            file = self._declare_file(step, out_path, FileState.PLANNED)\n")), ("R-C09-12",)),
+    Mutant("declared-env-deps-dropped", "workflow.py", in_function("Workflow.define_step", replace_once("        step.add_env_deps(env_deps)\n", "")), ("R-C09-12",)),
+    Mutant("amended-inputs-not-marked-dynamic", "workflow.py", in_function("Workflow.amend_step", replace_once("                dynamic_ideps.append((info.new_idep,))\n", "                pass\n")), ("R-C09-12",)),
+    Mutant("transitions-looked-up-not-written", "workflow.py", in_function("Workflow.update_file_hashes", replace_once("            new_states_hashes.append((i, new_state, new_fh))\n", "")), ("R-C09-11",)),
+    Mutant("unlisted-transition-skipped", "workflow.py", in_function("Workflow.update_file_hashes", replace_once("                raise_unexpected(path, old_state, new_fh)\n", "                continue\n")), ("R-C09-11",)),
+    Mutant("updated-action-not-dispatched", "workflow.py", in_function("Workflow.update_file_hashes", replace_once("            self.handle_updated_file(File(self, i, path))\n", "            pass\n")), ("R-C09-11",)),
+    Mutant("actions-not-collected", "workflow.py", in_function("Workflow.update_file_hashes", replace_once("                action_lists[action].append((i, path))\n", "                pass\n")), ("R-C09-11",)),
     Mutant("set-env-overrides-writes-nothing", "step.py", in_function("Step.set_env_overrides", lambda t: __import__("re").sub(r"\n        self\.db\.execute\(\s*\"UPDATE step SET env_overrides = \?[^\n]*\n(?:[^\n]*\n)*?\s*\)\n|\n        self\.db\.execute\(\"UPDATE step SET env_overrides = \? WHERE node = \?\", \(value, self\.i\)\)\n", "\n        pass\n", t, count=1) if "UPDATE step SET env_overrides" in t else None), ("R-C09-9",)),
     Mutant("delete-hash-deletes-nothing", "step.py", in_function("Step.delete_hash", lambda t: t.replace("self.db.execute(", "(lambda *a: None)(", 1) if "self.db.execute(" in t else None), ("R-C09-9",)),
     Mutant("cycle-check-skips-detached-inputs", "workflow.py", in_function("Workflow._supply_files", replace_once("new_file_is = [file.i for file, _, _, new_relation in resolved if new_relation]", "new_file_is = [file.i for file, _, detached, new_relation in resolved if new_relation and not detached]")), ("R-C09-4",)),
